@@ -9,6 +9,7 @@ import (
 	"fmt"
 	"image"
 	"image/jpeg"
+	"os"
 	"sort"
 	"strings"
 	"sync"
@@ -251,6 +252,11 @@ func (s *session) write(u *unit.Unit) (*unit.Unit, string) {
 	}
 }
 
+// advertised returns the format the stream describes to its readers.
+func (s *session) advertised() format.Format {
+	return s.strm.OutDescCopy().Medias[0].Formats[0]
+}
+
 func (s *session) close() {
 	s.strm.RemoveReader(s.rd)
 	s.strm.Close()
@@ -263,6 +269,7 @@ type checker struct {
 	fc      *fmtCase
 	max     int
 	dec     func(*rtp.Packet) (unit.Payload, error)
+	pt      int // payload type of the advertised format (-1: not judged)
 	haveSeq bool
 	nextSeq uint16
 	haveOff bool
@@ -285,6 +292,14 @@ func (c *checker) check(u *unit.Unit, pts int64, rep map[string]any, shape strin
 	if biggest > c.max {
 		c.vb.add(c.key+":payload-exceeds-max", fmt.Sprintf("%s max=%d elements=%v: a generated RTP packet has a %d-byte payload (> %d)",
 			c.tag, c.max, sizesOf(delivered), biggest, c.max), rep)
+	}
+	// 1b. the packets belong to the advertised format: a receiver selects the depacketizer by payload type
+	for i, p := range pkts {
+		if c.pt >= 0 && int(p.PayloadType) != c.pt {
+			c.vb.add(c.key+":payload-type-mismatch", fmt.Sprintf("%s max=%d elements=%v: generated packet %d has payload type %d, the advertised format has %d",
+				c.tag, c.max, sizesOf(delivered), i, p.PayloadType, c.pt), rep)
+			break
+		}
 	}
 	// 2. consecutive sequence numbers (inside the unit and across units)
 	for i, p := range pkts {
@@ -529,11 +544,12 @@ func runNonRTP(fc *fmtCase, max int, thorough bool, vb *vbuf) {
 		return
 	}
 	defer s.close()
-	dec, err := stream.VerifC23NewRTPDecoder(forma)
+	adv := s.advertised()
+	dec, err := stream.VerifC23NewRTPDecoder(adv) // the depacketizer of the format the stream advertises to readers
 	if err != nil {
 		vcommon.Harness("C23: newRTPDecoder(%s): %v", fc.name, err)
 	}
-	c := &checker{tag: fc.name, key: fc.keyName(), fc: fc, max: max, dec: dec, vb: vb}
+	c := &checker{tag: fc.name, key: fc.keyName(), fc: fc, max: max, dec: dec, pt: int(adv.PayloadType()), vb: vb}
 	pts := int64(1<<32 - 40*3000) // the 32-bit RTP timestamp wraps after 40 units
 	for _, sz := range sizeLists(fc, fc.maxList, max, thorough) {
 		pts += 3000
@@ -575,9 +591,10 @@ func pktSizes(p []*rtp.Packet) []int {
 }
 
 type task struct {
-	fc  *fmtCase
-	max int
-	f   func(vb *vbuf)
+	fc    *fmtCase
+	max   int
+	f     func(vb *vbuf)
+	entry string
 }
 
 func main() {
@@ -589,14 +606,34 @@ func main() {
 	for _, fc := range fcs {
 		for _, m := range maxima {
 			fc, m := fc, m
-			tasks = append(tasks, task{fc, m, func(vb *vbuf) { runNonRTP(fc, m, th, vb) }})
+			tasks = append(tasks, task{fc, m, func(vb *vbuf) { runNonRTP(fc, m, th, vb) }, "non-rtp"})
 		}
 	}
 	tasks = append(tasks, extraTasks(fcs, th)...)
+	tasks = append(tasks, positionTasks(fcs)...)
 	vbs := make([]vbuf, len(tasks))
-	vcommon.Parallel(len(tasks), func(i int) { tasks[i].f(&vbs[i]) })
+	durs := make([]time.Duration, len(tasks))
+	vcommon.Parallel(len(tasks), func(i int) {
+		t0 := time.Now()
+		tasks[i].f(&vbs[i])
+		durs[i] = time.Since(t0)
+	})
+	if os.Getenv("C23_TIMING") != "" { // development aid: where the time goes (stderr only, never in the evidence)
+		for i, d := range durs {
+			if d > 300*time.Millisecond {
+				fmt.Fprintf(os.Stderr, "task %d %s max=%d entry=%s: %v\n", i, tasks[i].fc.name, tasks[i].max, tasks[i].entry, d)
+			}
+		}
+	}
 	for i := range vbs {
 		vbs[i].flush()
+	}
+	// the position dimension must not silently become empty: these formats yield every scenario at every maximum
+	for _, name := range positionsMustCover {
+		if want := len(maxima) * 7; stats["positions:scenarios_by_format:"+name] != want {
+			vcommon.Harness("C23: position dimension: %d scenarios for %s, expected %d (3 positions x 2 publishers + the single-packet unit, per maximum): the spliced publisher packets are no longer accepted by the depacketizer",
+				stats["positions:scenarios_by_format:"+name], name, want)
+		}
 	}
 	keys := make([]string, 0, len(stats))
 	for k := range stats {
@@ -608,17 +645,32 @@ func main() {
 	}
 	r.Set("formats", len(fcs))
 	r.Set("maximum_payload_sizes", maxima)
-	r.Rule = fmt.Sprintf("every format of newRTPEncoder (%d format configurations incl. G.711 mono/stereo, LPCM 16-bit stereo/24-bit 5.1, FLAC with its empty encoder) x", len(fcs)) +
+	nvar := 0
+	for _, fc := range fcs {
+		if fc.key != "" && fc.name != "opus-durations" {
+			nvar++
+		}
+	}
+	r.Set("format_parameter_variants", nvar)
+	r.Rule = fmt.Sprintf("every format of newRTPEncoder (%d format configurations incl. G.711 mono/stereo, LPCM 16-bit stereo/24-bit 5.1, FLAC with its empty encoder, each with its own payload type, and %d parameter variants in which values that usually coincide differ: ", len(fcs), nvar) +
+		"MPEG-4 Audio sizelength/indexlength/indexdeltalength 13/3/2, 6/2/3 (access units <= 63 bytes), 15/1/4; MPEG-4 Audio LATM cpresent=0; H.264 described with packetization-mode 0 by a non-RTP publisher; " +
+		"G.711 A-law static payload type 8, G.711 3 channels 48 kHz; LPCM 16-bit mono 44.1 kHz, 8-bit 3 channels 8 kHz, 24-bit mono 96 kHz; Opus mono and 5.1) x" +
 		" maximum payload size {64,100,1440,1450,1460} x element sizes {1,2,3, max/2-3..max/2+1, max-3..max+3, 2max-1..2max+1, 3max+7} " +
 		"(AC-3 / MPEG-1 audio: every valid frame size; M-JPEG: 12 generated images), all lists of <=2 elements and triples (quick: over 8 representative sizes) for list payloads; " +
 		fmt.Sprintf("Opus duration alphabet (opus-durations): %d packet layouts = all 32 TOC configurations (2.5/5/10/20/40/60 ms) with one frame, frame count codes 1 and 2, code 3 with M in {1,2,3,5,6,12,24,48} plain / VBR flag / padding flag, ", len(opusVars)) +
 		"plus 1-byte, max-1, max, max+1 byte packets, all lists of <=2 packets and triples over one packet per duration and code, so that durations vary between consecutive units and inside a unit; " +
-		"three entry conditions (non-RTP publisher; H.264 packetization-mode 0 forced remux of an RTP publisher; RTP publisher whose packets exceed the maximum). " +
+		"four entry conditions (non-RTP publisher; H.264 packetization-mode 0 forced remux of an RTP publisher; RTP publisher whose packets exceed the maximum; " +
+		"position dimension: on a fresh stream an RTP publisher sends a fitting unit, then a unit fragmented over >= 3 packets of which exactly one is larger than the maximum - the first, a middle or the last fragment, or a single-packet unit - " +
+		"once about twice the maximum and once just above it, then the unit again in fitting packets; every fragmenting format x every maximum; nothing larger than the maximum may be delivered, generated or forwarded). " +
 		"distinct = (entry+format, max, size-class shape of the elements, single/aggregated/fragmented, packet count, biggest payload vs max)"
 	r.Exhaustive = true
 	r.Assumptions = []string{
 		"exhaustive inside the size alphabet, not over all payload contents (contents are a fixed byte pattern without start codes)",
-		"the sequence-number, timestamp and size checks use only the statement; losslessness is judged with the repository's rtpDecoder (trusted as the depacketizer)",
+		"the sequence-number, timestamp and size checks use only the statement; losslessness is judged with the repository's rtpDecoder (trusted as the depacketizer) built from the format the stream advertises (OutDescCopy), and every generated packet must carry the payload type of that format",
+		"MPEG-4 Audio variants: access units are limited to what sizelength bits can code and to mpeg4audio.MaxAccessUnitSize (5120); an access unit of 2^sizelength bytes or more is outside the alphabet",
+		"position dimension: the publisher's packet lists are spliced from two packetizations of the same unit by the repository's newRTPEncoder (fragment sizes b and 2b) and used only when the repository's rtpDecoder reassembles the original unit from them and yields nothing before the last packet; " +
+			"fields that count the fragments of a unit (AC-3 NF) are those of the two packetizations; formats / maxima / positions for which no such list exists are counted (positions:not_constructible, formats_x_maxima_without_fragmentation), a guard fails the harness when a format of the guarded list loses a scenario; " +
+			"packets of a unit that were forwarded before the oversized one arrived are not fed to the oracle's depacketizer (the statement is about generated packets)",
 		"timestamps: the first packet of every unit must carry PTS + one constant per stream whatever the unit contains (PTS advances by a constant 3000, unrelated to the content); inside a unit video formats must repeat the first packet's timestamp; " +
 			"audio / KLV: packet k must carry the first packet's timestamp + the playing time, on the format's RTP clock, of the elements completed by the packets before it (fragments of one element share a timestamp) - the reading 'each packet is stamped with the time of its first sample' of the statement's 'unit timestamp plus a fixed offset'",
 		"playing times come from a reference model written from the codec specifications (Opus: RFC 6716 TOC table x frame count; AAC-LC 1024, AC-3 1536, MPEG-1 audio layer II/III 1152 samples on the 90 kHz MPA clock with floor..ceil accepted, PCM: bytes / sample size); which elements a packet completes is taken from the repository's rtpDecoder",
